@@ -22,6 +22,7 @@ def main() -> int:
     ap.add_argument("--tier", default="quick")
     ap.add_argument("--examples")
     ap.add_argument("--seed", default="1")
+    ap.add_argument("--keep-replays", help="directory that receives the replay files of the violations found")
     ap.add_argument("props", nargs="+")
     args = ap.parse_args()
     scratch = f"/tmp/ac_mut_{os.getpid()}"
@@ -60,6 +61,8 @@ def main() -> int:
             if proc.returncode == 2:
                 print(proc.stderr[-1500:])
             status = max(status, proc.returncode)
+        if args.keep_replays and os.path.isdir(os.path.join(scratch, "out", "replays")):
+            shutil.copytree(os.path.join(scratch, "out", "replays"), args.keep_replays, dirs_exist_ok=True)
         return status
     finally:
         shutil.rmtree(scratch, ignore_errors=True)
